@@ -36,6 +36,13 @@ Definition agrees (c : c12case) : bool :=
   end.
 
 (* ---------- property side ---------- *)
+(* results up to the text of the NotFound message *)
+Definition rres_sim (a b : rres) : bool :=
+  match a, b with
+  | RGet (NotFound _), RGet (NotFound _) => true
+  | _, _ => rres_eqb a b
+  end.
+
 Definition is_prefix_tr (t : transcript) (h : option md) (ms : list msg) (tr : option md) (st : option status) : bool :=
   option_eqb md_eqb (t_header t) h && list_eqb Z.eqb (t_msgs t) ms
   && option_eqb md_eqb (t_trailer t) tr && option_eqb status_eqb (t_status t) st.
@@ -73,7 +80,12 @@ Definition routed_ok (target : getres) (n : string) (calls : list call) (t : tra
   match target with
   | Got c => match calls with [(c', true, true)] => (c' =? c) && body_ok | _ => false end
   | NotFound _ =>
-      match calls with [] => is_prefix_tr t None [] None (Some (not_found_code, n)) | _ => false end
+      (* NotFound status (the message text is not part of the property), nothing delivered, nobody called *)
+      match calls, t_status t with
+      | [], Some (code, _) =>
+          (code =? not_found_code) && is_prefix_tr t None [] None (t_status t)
+      | _, _ => false
+      end
   end.
 
 Fixpoint hist_ok (g : cfg) (s : pstate) (ops : list hop) (obs : list hres) : option pstate :=
@@ -82,7 +94,7 @@ Fixpoint hist_ok (g : cfg) (s : pstate) (ops : list hop) (obs : list hres) : opt
   | o :: ops', x :: obs' =>
       let next s' ok := if ok : bool then hist_ok g s' ops' obs' else None in
       match o, x with
-      | HReg ro, HR r => let '(s', r') := pstep g s ro in next s' (rres_eqb r r')
+      | HReg ro, HR r => let '(s', r') := pstep g s ro in next s' (rres_sim r r')
       | HAddBad _, HPanic => next s true
       | HUnary n u, HCalled calls t =>
           match pstep g s (OGet n) with
@@ -109,7 +121,7 @@ Definition count_auto (n : string) (l : list change) : Z :=
   zlen (filter (fun c => cauto c && String.eqb (cname c) n) l).
 
 Definition all_same_res (l : list rres) : bool :=
-  match l with [] => true | x :: r => forallb (rres_eqb x) r end.
+  match l with [] => true | x :: r => forallb (rres_sim x) r end.
 
 (* concurrent first Gets of one name: one client for everybody, one Auto change, and it is the one remembered *)
 Definition sched_ok (g : cfg) (pre : list rop) (ths : list tkind) (obs : list rres) (log : list change)
@@ -128,7 +140,7 @@ Definition sched_ok (g : cfg) (pre : list rop) (ths : list tkind) (obs : list rr
               && forallb (fun nc => negb (String.eqb (fst nc) n) || (snd nc =? c)) final
               && existsb (fun ch => cauto ch && String.eqb (cname ch) n && (cnew ch =? c) && (cold ch =? nil_client)) log
           | RGet (NotFound m) :: _ =>
-              negb (mem_str n (fac_ok g)) && String.eqb m n && (auto =? 0)
+              negb (mem_str n (fac_ok g)) && (auto =? 0)
               && forallb (fun nc => negb (String.eqb (fst nc) n) || (snd nc =? nil_client)) final
           | _ => false
           end
